@@ -864,6 +864,68 @@ def model_call(interp, st, term, argvals):
         if argvals and argvals[0][0] == "ref":
             return argvals[0]
         return None
+    # ---- byte slices, ranges, iterators over literal bytes, closures on Option (enough for small pure helpers)
+    if res in ("core::slice::iter", "std::slice::iter"):
+        if a and a[0][0] == "bytes":
+            return Agg("sliceiter", 0, (a[0],))
+        return None
+    if res in ("core::slice::get", "std::slice::get"):
+        if len(a) == 2 and a[0][0] == "bytes":
+            bts = a[0][1]
+            idx = a[1]
+            if is_int(idx):
+                return Some(("ref", ("constv", Int(bts[idx[1]])), ())) if 0 <= idx[1] < len(bts) else NONE
+            if idx[0] == "agg" and idx[1].endswith("ops::RangeFrom") and is_int(idx[3][0]):
+                st_ = idx[3][0][1]
+                return Some(("ref", ("const", bts[st_:]), ())) if 0 <= st_ <= len(bts) else NONE
+            if idx[0] == "agg" and idx[1].endswith("ops::Range") and is_int(idx[3][0]) and is_int(idx[3][1]):
+                st_, en_ = idx[3][0][1], idx[3][1][1]
+                return Some(("ref", ("const", bts[st_:en_]), ())) if 0 <= st_ <= en_ <= len(bts) else NONE
+            if idx[0] == "agg" and idx[1].endswith("ops::RangeTo") and is_int(idx[3][0]):
+                en_ = idx[3][0][1]
+                return Some(("ref", ("const", bts[:en_]), ())) if 0 <= en_ <= len(bts) else NONE
+        return None
+    if decl == "std::iter::Iterator::position":
+        if len(a) == 2 and a[0][0] == "agg" and a[0][1] == "sliceiter" and a[1][0] == "agg" and a[1][1].startswith("closure:"):
+            cb = interp.F.bodies.get(a[1][1][8:])
+            if cb is None or interp.depth >= 4:
+                return None
+            bts = a[0][3][0][1]
+            for i_, byte in enumerate(bts):
+                sub = Interp(interp.F, cb, Oracle(args={1: ("ref", ("constv", a[1]), ()), 2: ("ref", ("constv", Int(byte)), ())}), inline=interp.inline, depth=interp.depth + 1)
+                try:
+                    rv = sub.run().return_value()
+                except Exception:
+                    return None
+                if rv is None or not is_int(rv):
+                    return None
+                if rv[1]:
+                    return Some(Int(i_))
+            return NONE
+        return None
+    if res in ("std::option::Option::and_then", "std::option::Option::map"):
+        if len(a) == 2 and a[0][0] == "agg" and a[0][1] == OPTION:
+            if a[0][2] == 0:
+                return NONE
+            if a[1][0] == "agg" and a[1][1].startswith("closure:") and interp.depth < 4:
+                cb = interp.F.bodies.get(a[1][1][8:])
+                if cb is None:
+                    return None
+                sub = Interp(interp.F, cb, Oracle(args={1: ("ref", ("constv", a[1]), ()), 2: a[0][3][0]}), inline=interp.inline, depth=interp.depth + 1)
+                try:
+                    rv = sub.run().return_value()
+                except Exception:
+                    return None
+                if rv is None:
+                    return None
+                return rv if res.endswith("and_then") else Some(rv)
+        return None
+    if res in ("std::option::Option::expect", "std::option::Option::unwrap"):
+        if a and a[0][0] == "agg" and a[0][1] == OPTION:
+            if a[0][2] == 1:
+                return a[0][3][0]
+            return "diverge"
+        return None
     if res in ("btoi::btoi", "btoi::btou", "atoi::atoi"):
         v = a[0] if a else TOP
         ok_ = (lambda x: Ok(x)) if res.startswith("btoi") else (lambda x: Some(x))
